@@ -13,6 +13,7 @@ from mir_eval import chord, key, melody, multipitch, transcription
 from checks import c11
 
 PROPERTY_ID = "C09"
+SCALE = (3, 3)   # budget multiplier (quick, thorough) applied to the n=(...) of every generated sub-property
 LEVEL = "exploration"
 RULE = ("key pairs exhaustively (every valid reference/estimate key string) x 12 joint transpositions x sharp/flat spelling of the transposed "
         "tonics; chord label sequences with intervals under enharmonic respelling of roots (C#<->Db, B#<->C, E#<->F, Cb<->B, double accidentals) "
